@@ -81,7 +81,9 @@ def pool_items():
     items += ["with! a:\n    b\n\n", "with! a:\n    b\n    # c\n", "if x:\n    with! a:\n        b c\n", "f!(a,\n   b)\n", "x = f!(a)(b)\n" if False else "x = [f!(a), 2]\n",
               "$(ls\n -l)\n" if False else "$(ls -l); $[pwd]\n", "x = p'/a' 'b'\n", "x = pf'{a}/b'; y = p'c'\n", "help?; f??\n" if False else "int?\n", "x = '''\n$(\n'''\n", "x = '''\nwith! a:\n'''\n",
               "# with! a:\n", "x = (\n  $A,\n  $(b c),\n)\n", "x = f'{$(ls)}' f'{a!r:{b}}'\n", "def f():\n    with! a:\n        raw text here\n    return 1\n", "y = f!(if else)\n",
-              "![a b c! d e f]\n", "$[echo!]\n", "x = $(timeit!)\n", "![echo -n!]\n", "r = !(ls! )\n", "f!()\n", "g!( )\n", "with! a: \n" if False else "h!(a,)\n", "x = 1 if ![a] else $[b]\n", "@dec\ndef g():\n    $[ls]\n", "class A:\n    with! b:\n        c\n    x = 1\n", "for $i in $(seq 3).split(): print($i)\n"]
+              "![a b c! d e f]\n", "$[echo!]\n", "x = $(timeit!)\n", "![echo -n!]\n", "r = !(ls! )\n", "f!()\n", "g!( )\n", "with! a: \n" if False else "h!(a,)\n", "x = 1 if ![a] else $[b]\n", "@dec\ndef g():\n    $[ls]\n", "class A:\n    with! b:\n        c\n    x = 1\n", "for $i in $(seq 3).split(): print($i)\n",
+              # one-line with-macros whose statement ends inside a multi-line string or bracket: the capture must stop at the statement's NEWLINE
+              "with! ctx: a = \"\"\"q\nw\"\"\"\n", "with! x: f(\'\'\'\n\'\'\')\n", "with! x: y = (1,\n  2)\n", "with! x: s = \'a\\\nb\'\n", "with! x: pass\n"]
     return [s for s in items if s]
 
 
